@@ -257,6 +257,11 @@ def python_wrappers(htm_py_src):
         # invalid inputs); both spellings are accepted
         if name == "bincount":
             typo = any("ra2.size != ra2.size" in b for b in body)
+            # fixes/C13/0004: precomputed reverse indices are converted like htmid2 (`else:` branch of `if htmrev2 is None:`);
+            # both spellings are accepted, the harness is told which one the source has
+            conv = "\nelse:\n    htmrev2 = np.atleast_1d(htmrev2).astype('i8')"
+            rev_converted = any(b.startswith("if htmrev2 is None:") and b.endswith(conv) for b in body)
+            body = [b[:-len(conv)] if b.startswith("if htmrev2 is None:") and b.endswith(conv) else b for b in body]
         body = [b.replace("ra2.size != ra2.size", "ra2.size != <RA2-OR-DEC2>.size").replace("ra2.size != dec2.size", "ra2.size != <RA2-OR-DEC2>.size")
                 for b in body]
         if args != wargs:
@@ -264,9 +269,10 @@ def python_wrappers(htm_py_src):
         if body != wbody:
             k = next((i for i, (a, b) in enumerate(zip(body, wbody)) if a != b), min(len(body), len(wbody)))
             raise TranslateError("htm.py: HTM.%s changed at statement %d: %r" % (name, k, body[k] if k < len(body) else "<missing>"))
-    if nravel not in (0, 8):
-        raise TranslateError("htm.py: %d of the 8 array conversions of lookup_id/bincount are flattened (expected none or all)" % nravel)
-    return {"ravel": nravel == 8, "ra2_typo": typo}
+    nconv = 9 if rev_converted else 8
+    if nravel not in (0, nconv):
+        raise TranslateError("htm.py: %d of the %d array conversions of lookup_id/bincount are flattened (expected none or all)" % (nravel, nconv))
+    return {"ravel": nravel == nconv, "ra2_typo": typo, "rev_converted": rev_converted}
 
 
 def vector_ops(vec_src, edge_src, index_src, iface_h, iface_cpp, htmc_src, general_src):
